@@ -26,11 +26,13 @@ def gen_message(rng, echo, faulty):
     for k in range(n):
         if k == fpos:
             if kind == 'syntax':
-                texts.append(rng.choice([b'X 1 2', b'X ,', b'X!', b'X "a" "b"', b'X 1,,2', b'&', b'X #', b'BOOL 1e', b'SYST::A']))
+                texts.append(rng.choice([b'X 1 2', b'X ,', b'X!', b'X "a" "b"', b'X 1,,2', b'&', b'X #', b'BOOL 1e', b'SYST::A', b'STR "it\'s" !',
+                                         b"STR 'a\"b' 'c'", b'TWO 1,"it\'s" x', b'X "a;b" !']))
                 errs.append(None)
                 break
             if kind == 'undef':
-                texts.append(rng.choice([b':NOPE', b':SYST:NOPE', b':ECHO:U9? 1', b':SYSTE:A', b':X:X', b'*XYZ']))
+                texts.append(rng.choice([b':NOPE', b':SYST:NOPE', b':ECHO:U9? 1', b':SYSTE:A', b':X:X', b'*XYZ', b':NOPE "it\'s"', b":SYST:NOPE 'say \"hi\"'",
+                                         b':NOPE 1,"a;b",#13x;y', b":SYSTE:A 'q' , \"r's\"", b':NOPE "\'"', b":NOPE '\"','\"'"]))
                 errs.append('-113')
                 break
             if kind == 'noslot':
